@@ -463,6 +463,10 @@ class _FnRun:
                 out[t.id] = s
             else:
                 out.pop(t.id, None)
+                # a local that holds a foldable Boolean (a flag alias, `is_frame = isinstance(X, pd.DataFrame)`)
+                tv = self.const_of(value, env)
+                if tv is not None:
+                    out[t.id] = _fs(("const", tv))
         elif isinstance(t, (ast.Tuple, ast.List)):
             if isinstance(value, ast.Call) and self.normaliser(value) is self.an.check_X_y and t.elts:
                 s = self.eval_value(value, env)
@@ -511,6 +515,8 @@ class _FnRun:
             return env.get(e.id)
         if isinstance(e, ast.IfExp):
             t = self.truth_env(e.test, env)
+            if t is None:
+                t = self.const_of(e.test, env)
             parts = []
             if t is not False:
                 parts.append(self.eval_value(e.body, env))
@@ -531,7 +537,7 @@ class _FnRun:
                 s = self.eval_value(b["X"], env)
                 if not s:
                     return None
-                flags = self.flags(b, e)
+                flags = self.flags(b, e, env)
                 if flags is None:
                     return None
                 to_np, to_pd = flags
@@ -578,6 +584,19 @@ class _FnRun:
             return next(iter(s))
 
         ROWS = ("rows",)
+        # --- sub-selections: all instances of some columns ("rows") vs. some instances ("select", "instances")
+        if isinstance(e, ast.Subscript) and isinstance(e.value, ast.Name) and one(e.value.id) == NP:
+            sl = e.slice
+            if isinstance(sl, ast.Tuple) and len(sl.elts) == 2 and isinstance(sl.elts[0], ast.Slice) and sl.elts[0].lower is None \
+                    and sl.elts[0].upper is None and sl.elts[0].step is None and not isinstance(sl.elts[1], ast.Slice):
+                return _fs(ROWS)  # X[:, key]: the selected columns of every instance
+            if not isinstance(sl, (ast.Tuple, ast.Slice)):
+                return _fs(("select", "instances"))  # X[key]: the selected instances
+        if isinstance(e, ast.Subscript) and isinstance(e.value, ast.Attribute) and e.value.attr == "loc" \
+                and isinstance(e.value.value, ast.Name) and one(e.value.value.id) == PD and isinstance(e.slice, ast.Tuple) \
+                and len(e.slice.elts) == 2 and isinstance(e.slice.elts[0], ast.Slice) and e.slice.elts[0].lower is None \
+                and e.slice.elts[0].upper is None:
+            return _fs(ROWS)
         # --- values whose first axis is still the instance axis ("rows")
         if isinstance(e, ast.Subscript) and isinstance(e.value, ast.Name) and one(e.value.id) == PD \
                 and not isinstance(e.slice, (ast.Slice, ast.Tuple)):
@@ -713,7 +732,23 @@ class _FnRun:
             self._seen.add(("4", key))
             self.out.viol4.append((key, what, loc))
 
-    def flags(self, b, call):
+    def const_of(self, e, env):
+        """Boolean value of ``e`` when it folds the same way for everything the environment allows, else None."""
+        if isinstance(e, ast.Name):
+            st = env.get(e.id)
+            if st and len(st) == 1 and isinstance(next(iter(st)), tuple) and next(iter(st))[0] == "const":
+                return next(iter(st))[1]
+            if e.id in self.consts and e.id not in self.stored:
+                return self.consts[e.id]
+            return None
+        if isinstance(e, (ast.Call, ast.Compare, ast.BoolOp, ast.UnaryOp)):
+            t = self.truth_env(e, env)
+            if t is None and self.consts:
+                t = self.truth(e, None, None)
+            return t
+        return None
+
+    def flags(self, b, call, env=None):
         out = []
         for p in ("coerce_to_numpy", "coerce_to_pandas"):
             v = b.get(p)
@@ -721,8 +756,8 @@ class _FnRun:
                 out.append(False)
             elif isinstance(v, ast.Constant) and isinstance(v.value, bool):
                 out.append(v.value)
-            elif isinstance(v, ast.Name) and v.id in self.consts and v.id not in self.stored:
-                out.append(self.consts[v.id])
+            elif isinstance(v, ast.Name) and self.const_of(v, env or {}) is not None:
+                out.append(self.const_of(v, env or {}))
             else:
                 self.und("check_X:%s" % p, "coercion flag %s is not a literal: %s" % (p, ast.unparse(v)), call)
                 return None
@@ -758,6 +793,8 @@ class _FnRun:
             if any(v is True for v in vals):
                 return True
             return False if all(v is False for v in vals) else None
+        if isinstance(test, ast.Name) and test.id == name and isinstance(c, tuple) and c and c[0] == "const":
+            return c[1]
         if isinstance(test, ast.Name) and test.id in self.consts and test.id not in self.stored:
             return self.consts[test.id]
         if isinstance(test, ast.Constant) and isinstance(test.value, bool):
@@ -834,7 +871,7 @@ class _FnRun:
             return None
         for nm in names:
             for c in env[nm]:
-                if c == U or isinstance(c, tuple):
+                if c == U or (isinstance(c, tuple) and c[0] != "const"):
                     return None
                 vals.add(self.truth(test, nm, c))
         if len(vals) == 1:
@@ -853,7 +890,7 @@ class _FnRun:
         for nm in names:
             keep = set()
             for c in env[nm]:
-                if c == U or isinstance(c, tuple):
+                if c == U or (isinstance(c, tuple) and c[0] != "const"):
                     keep.add(c)
                     continue
                 t = self.truth(test, nm, c)
@@ -1444,6 +1481,7 @@ def run(ctx):
                     names = sums[NP].batch_names | sums[PD].batch_names
                     batch_aggregates(ctx, repo, an, cls, defcls, fn, construct0, names)
                     self_accumulators(ctx, an, defcls, fn, construct0)
+                    refits(ctx, repo, an, cls, defcls, fn, construct0)
             # R3: a fitted dimension must denote the same axis of the panel for both containers
             for attr in sorted(set(sums[NP].stores) & set(sums[PD].stores)):
                 a, b = sums[NP].stores[attr], sums[PD].stores[attr]
@@ -1464,16 +1502,25 @@ def run(ctx):
     refresh_guards(ctx, repo, an)
     helper_conformance(ctx, repo)
     validator_model(ctx, repo, an)
-    ctx.floor("R4", 30)
+    ctx.floor("R4", 32)
     ctx.floor("R5", 4)
     ctx.floor("R6", 31)
-    ctx.floor("R7", 24)
+    ctx.floor("R7", 28)
 
 
 
 def _dimshow(d):
-    return " / ".join(sorted("%s axis" % c[1] if c[0] == "dim" else ("index over the %s axis" % c[1] if c[0] == "index"
-                                                                    else c[0]) for c in d))
+    def one(c):
+        if c[0] == "dim":
+            return "%s axis" % c[1]
+        if c[0] == "index":
+            return "index over the %s axis" % c[1]
+        if c[0] == "select":
+            return "a selection of %s" % c[1]
+        if c[0] == "rows":
+            return "a selection of columns (all instances)"
+        return c[0]
+    return " / ".join(sorted(one(c) for c in d))
 
 
 # -------------------------------------------------------------------------------------------------- R2
@@ -1791,8 +1838,16 @@ def validators(ctx, repo, an):
         for pos in sorted(xa ^ xb):
             st = next((n for n in astq.walk_no_nested(fn) if isinstance(n, ast.Assign) and (n.lineno, n.col_offset) == pos), None)
             v = st.value if st is not None else None
-            sym = repo.resolve_expr(mod, v.func) if isinstance(v, ast.Call) else None
-            if not (sym is not None and sym.kind == "func" and id(sym.target) in conv):
+
+            def allowed(x):
+                if isinstance(x, ast.Name) and x.id == "X":
+                    return True
+                if isinstance(x, ast.IfExp):
+                    return allowed(x.body) and allowed(x.orelse)
+                sym = repo.resolve_expr(mod, x.func) if isinstance(x, ast.Call) else None
+                return sym is not None and sym.kind == "func" and id(sym.target) in conv
+
+            if not allowed(v):
                 bad_x.append((pos, v))
         if bad_x:
             pos, v = bad_x[0]
@@ -1961,6 +2016,48 @@ def helper_conformance(ctx, repo):
         else:
             ctx.ok("R7", c0, "no order-changing grouping of the instances", ctx.loc(mod, fn))
 
+    # (c') instance labels must keep their order: no sorting / np.unique of the frame's index in the converters
+    for name in ("from_nested_to_3d_numpy", "from_nested_to_multi_index", "from_multi_index_to_3d_numpy"):
+        fn = repo.func(dp, name)
+        par = astq.param_names(fn)[0]
+        bad = None
+        for c in astq.calls(fn):
+            ex = ext(mod, fn, c.func)
+            sorts = ex in ("numpy.unique", "numpy.sort", "builtins.sorted") or (
+                isinstance(c.func, ast.Attribute) and c.func.attr in ("sort_values", "sort_index", "sort") and ex is None)
+            if not sorts:
+                continue
+            subject = c.args[0] if ex in ("numpy.unique", "numpy.sort", "builtins.sorted") and c.args else (
+                c.func.value if isinstance(c.func, ast.Attribute) else None)
+            if subject is not None and any(isinstance(x, ast.Attribute) and x.attr == "index" and isinstance(x.value, ast.Name)
+                                           and x.value.id == par for x in ast.walk(subject)):
+                bad = c
+        c0 = "%s:instance-labels" % name
+        if bad is not None:
+            ctx.violation("R7", c0, "the instance labels are taken through %s, which sorts them: the instances of the converted panel "
+                          "follow the sorted labels, not the row order of the frame" % astq.canon(bad)[:60], ctx.loc(mod, bad),
+                          witness={"input": "nested frame with row index [2, 0, 1]"})
+        else:
+            ctx.ok("R7", c0, "instance labels are enumerated in frame order", ctx.loc(mod, fn))
+
+    # (c'') the column selector of the column ensemble selects the same axis for both containers
+    ce = "sktime/classification/compose/_column_ensemble.py"
+    gc = repo.func(ce, "_get_column")
+    an2 = Analyzer(repo)
+    par = astq.param_names(gc)[0]
+    dims = {}
+    for c in (NP, PD):
+        sm = an2.summary(gc, repo.module(ce), None, None, {par: _fs(c)})
+        dims[c] = sm.retdim
+    c0 = "_get_column:axis"
+    if dims[NP] is None or dims[PD] is None:
+        ctx.undecided("R7", c0, "returned selection not interpretable (%s / %s)" % (dims[NP], dims[PD]), ctx.loc(repo.module(ce), gc))
+    else:
+        ctx.check(dims[NP] == dims[PD] == _fs(("rows",)), "R7", c0, "selects columns (all instances) for both containers",
+                  "for a 3-d array the helper returns %s, for a nested frame %s: members of the column ensemble are fed instances "
+                  "instead of columns for one container" % (_dimshow(dims[NP]), _dimshow(dims[PD])), ctx.loc(repo.module(ce), gc),
+                  witness={"input": "X3d of shape (n, 3, t), key [0]"})
+
     # (d) minimum-instances predicate
     vm = repo.module(PANEL_VALIDATION)
     fn = repo.func(PANEL_VALIDATION, "_enforce_min_instances")
@@ -2048,3 +2145,45 @@ def validator_model(ctx, repo, an):
                           % (fname, c, to_np, to_pd, ("returns %s" % ("/".join(sorted(got)) if got else "an untracked value"))
                              if sm.returns else "never returns normally", want), loc,
                           witness={"input": "%s panel" % c})
+
+
+
+def refits(ctx, repo, an, cls, defcls, fn, construct0):
+    """R4: an apply-type method must not (re)fit a component that lives on self across calls: `self.a.fit(...)` /
+    `self.a.fit_transform(...)` / `self.a[i].fit...` is only accepted when self.a is (re)created earlier in the same call
+    (fit-in-transform clones).  Otherwise the output of an instance depends on the batch it is passed with and the fitted
+    state is overwritten by the apply data."""
+    g = an.flow.cfg(fn)
+    sites = []
+    for c in astq.calls(fn):
+        f = c.func
+        if isinstance(f, ast.Attribute) and f.attr in ("fit", "fit_transform", "partial_fit", "fit_predict"):
+            recv = f.value
+            while isinstance(recv, ast.Subscript):
+                recv = recv.value
+            if astq.is_self_attr(recv):
+                sites.append((recv.attr, c))
+    for attr, c in sites:
+        def creates(nd, attr=attr):
+            if isinstance(nd.stmt, ast.Assign) and any(astq.is_self_attr(t, "self", attr) for t in nd.stmt.targets):
+                return True
+            for call in nd.calls():
+                f = call.func
+                if isinstance(f, ast.Attribute) and isinstance(f.value, ast.Name) and f.value.id == "self":
+                    hit = an.lookup(cls, f.attr)
+                    if hit is not None and hit[0] == "repo":
+                        g2 = an.flow.cfg(hit[2])
+                        if g2.must_pass(lambda n2: isinstance(n2.stmt, ast.Assign) and any(
+                                astq.is_self_attr(t, "self", attr) for t in n2.stmt.targets)):
+                            return True
+            return False
+
+        IN, _ = g.forward_must(creates)
+        nd = g.node_of(c)
+        fresh = nd is not None and IN.get(nd.id, False)
+        construct = "%s:refit:self.%s" % (construct0, attr)
+        ctx.check(fresh, "R4", construct, "self.%s is created in this call before it is fitted (fit-in-transform clone)" % attr,
+                  "%s calls %s on self.%s, which was established before this call: the fitted component is re-estimated on the data "
+                  "being transformed, so the output of an instance depends on the batch it arrives in and the fitted state is "
+                  "overwritten" % (construct0, astq.canon(c.func)[:50], attr), ctx.loc(defcls.module, c),
+                  witness={"history": "fit(X_train); transform(X[:1]) vs transform(X)[:1]"})
